@@ -72,6 +72,12 @@ def cases(draw, tier):
     # matters for two-axis reorderings), with one value unique to each ID
     pat = draw(st.sampled_from(["as-drawn", "as-drawn", "both", "obs-only",
                                 "samp-only", "none"]))
+    two_axes = draw(st.integers(0, 7)) == 0
+    if two_axes:
+        # a reordering of both axes at once, for every combination of axes
+        # that carry metadata (the general draw reaches one combination of
+        # {both axes, real permutations, metadata pattern} too rarely)
+        pat = draw(st.sampled_from(["both", "obs-only", "samp-only", "none"]))
     if pat != "as-drawn":
         spec["obs_md"] = [{"k": "ov%d" % i, "grp": "g%d" % (i % 2)}
                           for i in range(len(spec["obs"]))] \
@@ -80,6 +86,13 @@ def cases(draw, tier):
                            for i in range(len(spec["samp"]))] \
             if pat in ("both", "samp-only") else None
     op = draw(OPS)
+    if two_axes:
+        op = {"kind": "align_to", "axis": draw(st.sampled_from(["both",
+                                                                "detect"])),
+              "key_o": draw(ops.KEY), "key_s": draw(ops.KEY),
+              "same_o": True, "same_s": True}
+        spec["history"] = [o for o in spec["history"]
+                           if o["op"] not in ("add_metadata", "del_metadata")]
     if draw(st.sampled_from([False] * 29 + [True])):
         # one axis past 256 entries ('large axis' paths of the reorderings)
         spec = draw(gen.big_specs(md="simple", values="dyadic"))
